@@ -44,6 +44,27 @@ from . import forth as _forth_mod   # noqa: E402  (for the trusted-base text)
 PLAN["C19"] = {"kernels": [], "kinds": [], "extra": [_forth_engine], "trusted": _forth_mod.TRUSTED}
 
 
+def _builders_engine(pid, tier, seed, known):
+    from . import builders
+    return builders.engine(pid, tier, seed, known)
+
+
+from . import builders as _builders_mod   # noqa: E402
+PLAN["C14"] = {"kernels": [], "kinds": [], "extra": [_builders_engine], "trusted": _builders_mod.TRUSTED}
+PLAN["C12"]["extra"] = [_builders_engine, _forth_engine]
+PLAN["C12"]["trusted"] = KERNEL_TRUST + _builders_mod.TRUSTED + _forth_mod.TRUSTED
+
+
+def _partition_engine(pid, tier, seed, known):
+    from . import partition
+    return partition.engine(pid, tier, seed, known)
+
+
+from . import partition as _partition_mod   # noqa: E402
+PLAN["C18"] = {"kernels": [], "functions": ["awkward_regularize_rangeslice"], "kinds": ["S", "F"],
+               "extra": [_partition_engine], "trusted": _partition_mod.TRUSTED}
+
+
 def symbols_for(P, KI):
     pats = [re.compile(p) for p in P.get("kernels", [])]
     out = []
